@@ -604,8 +604,18 @@ impl PathIssueManager {
         // Broadcast issue
         self.issue_broadcast_tx.send((id, marker.clone())).ok();
 
-        if self.cache.len() >= self.max_entries {
+        // Evict until an entry was actually removed: the queue entry of an issue that was reported
+        // again in the meantime is stale and does not free a cache slot.
+        while self.cache.len() >= self.max_entries && !self.fifo_issues.is_empty() {
             self.pop_front();
+        }
+
+        // Stale queue entries are otherwise only dropped once they reach the front; compact the
+        // queue when they pile up, so that it stays bounded as well.
+        if self.fifo_issues.len() >= 2 * self.max_entries.max(1) {
+            let cache = &self.cache;
+            self.fifo_issues
+                .retain(|(id, timestamp)| cache.get(id).is_some_and(|m| m.timestamp == *timestamp));
         }
 
         // Insert issue
